@@ -91,7 +91,9 @@ def rule_construction(ctx):
                 okh = bool(hs)
                 for h in hs:
                     body = h.ast.body
-                    dels = any(isinstance(x, ast.Delete) and table in norm.text(x) for b in body for x in ast.walk(b))
+                    dels = any((isinstance(x, ast.Delete) and table in norm.text(x)) or
+                               (isinstance(x, ast.Call) and isinstance(x.func, ast.Attribute) and x.func.attr == "pop" and table in norm.text(x.func.value)
+                                and x.args and norm.text(x.args[0]) == "request_id") for b in body for x in ast.walk(b))
                     rer = any(isinstance(x, ast.Raise) for b in body for x in ast.walk(b))
                     okh = okh and dels and rer
                 ctx.ob(f"{api}: record removed and error re-raised when send fails", okh, "send not wrapped / handler does not remove the record and re-raise", fn.loc(sc))
@@ -152,10 +154,18 @@ def rule_dispatch(ctx):
             okp = all(x.kind == "stmt" and isinstance(x.ast, ast.Assign) and norm.text(x.ast.value) == f"self.{table}.pop(msg.request).on_reply" for x in tb)
             ctx.ob(f"ERROR for {kind}: removes the record and takes its pending result", okp, "pop/on_reply changed", om.fn.loc(got[1].ast))
     ctx.ob("ERROR arm handles exactly the six request kinds", len(pairs) == 6, f"{len(pairs)} kinds", om.fn.loc())
-    fin = [n for n in nodes if n.kind == "test" and norm.atoms(n.ast, True, res) == [("truth", "on_reply", None, True)]]
-    ok = len(fin) == 1 and all(_reaches_only_protocol_error(g, x) for x, lab in fin[0].succ if lab and lab[0] == "F")
+    # whichever way the test is written: where no pending result was found (on_reply falsy) the only way on is ProtocolError,
+    # and the reject happens only with one
+    fin = [n for n in nodes if n.kind == "test" and norm.atoms(n.ast, True, res) in ([("truth", "on_reply", None, True)], [("truth", "on_reply", None, False)])]
+    ok = len(fin) == 1
+    if ok:
+        pos = norm.atoms(fin[0].ast, True, res)[0][3]
+        miss_edge = "F" if pos else "T"
+        ok = all(_reaches_only_protocol_error(g, x) for x, lab in fin[0].succ if lab and lab[0] == miss_edge)
     ctx.ob("ERROR matching no pending request is a protocol violation", ok, "unmatched ERROR not answered with ProtocolError", om.fn.loc())
     rej = [(n, c) for n in nodes for c in node_calls(n) if call_name(c) == "txaio.reject"]
+    for n, c in rej:
+        ctx.ob("ERROR: the reject happens only when a pending result was found", ("truth", "on_reply", None, True) in (mf.at(n) or ()), "reject reachable without a pending result", om.fn.loc(c))
     ok = len(rej) == 1 and norm.text(rej[0][1].args[0]) == "on_reply" and norm.text(rej[0][1].args[1]) == "self._exception_from_message(msg)"
     ctx.ob("ERROR rejects the pending result with the exception built from the message", ok, "reject changed", om.fn.loc())
 
@@ -203,7 +213,14 @@ def rule_remove_then_complete(ctx):
         for n, c in completes:
             reach = g.reachable(n, start_exclusive=True)
             ctx.ob(f"{arm}: nothing completes again after `{stmt_key(c)[:40]}`", not any(m.id in reach and m is not n for m, _ in completes), "two completions on one path", om.fn.loc(c))
-        guard = [n for n in nodes if n.kind == "test" and "txaio.is_called" in norm.text(n.ast)]
+        guard = [n for n in nodes if n.kind == "test" and "txaio.is_called" in ast.unparse(n.ast)]
+        for gn in guard:
+            for m_, lab in gn.succ:
+                if lab and lab[0] == "T" and m_.kind == "stmt" and isinstance(m_.ast, ast.Return):
+                    ctx.ob(f"{arm}: the record is removed also when the pending result was already completed (cancelled call)",
+                           bool(removes) and g.always_preceded_by(m_, lambda x: x in removes),
+                           "the early return for an already completed result leaves the record in the table: the request stays pending forever and "
+                           "duplicate replies are accepted instead of being protocol violations", om.fn.loc(m_.ast))
         ctx.ob(f"{arm}: an already completed (e.g. cancelled) result is left alone", len(guard) == 1 and
                all(m.kind == "stmt" and isinstance(m.ast, ast.Return) for m, lab in guard[0].succ if lab and lab[0] == "T"), "is_called guard changed", om.fn.loc())
     # progressive results
